@@ -16,7 +16,7 @@ META = {
     "note": ("Trusted: Lean kernel; extract/c17.go; harness/c17.go + app/verifhook + vigil.VerifCount/VerifLockFree; the sync.Cond model "
              "(Wait = ticket under L, unlock+sleep, re-lock; Broadcast wakes every ticket taken so far — as in sync/cond.go and "
              "runtime/sema.go notifyList); contexts are latches; safeops.WaitForUnlock and hydra's graceful stop poll, so they have no "
-             "wake-up to lose; operations are anonymous in the model (a CeaseVigil is enabled only after a BeginVigil); the extra CeaseVigil after an auto-destroy (counter -1, confirmed on the real code by the `rpcs` op: vigdead=-1) happens on an instance whose only waiter, Destroy's drain, has already returned — it cannot block a wait, so it is not a C17 violation (it matters to C16)."),
+             "wake-up to lose; operations are anonymous in the model (a CeaseVigil is enabled only after a BeginVigil); the auto-destroy sites take the caller's vigil again after the destroy (fact autoDestroyRetakesVigil; `rpcs`: vigdead=0), so every handler shape is balanced also when an auto-destroy fires; the old shape (extra CeaseVigil, counter -1) is refuted under that fact (refutes_doubleCease)."),
     "design_ref": "§8 C17, Appendix E (vigil)",
 }
 
